@@ -18,14 +18,12 @@ where
 pub(crate) trait Index: Copy + Clone + FixedSize + PartialEq + Display {
     fn zero() -> Self;
     fn next(self) -> Self;
+    /// `next`, or `None` if `self` is the largest value of the type
+    fn checked_next(self) -> Option<Self>;
     fn widen_to_u16(self) -> u16;
 
     fn one() -> Self {
         Self::zero().next()
-    }
-
-    fn increment(&mut self) {
-        *self = self.next()
     }
 
     const COUNT_AND_PREFIX_QUALIFIER: QualifierCode;
@@ -65,6 +63,9 @@ impl Index for u8 {
     fn next(self) -> Self {
         self + 1
     }
+    fn checked_next(self) -> Option<Self> {
+        self.checked_add(1)
+    }
     fn widen_to_u16(self) -> u16 {
         self as u16
     }
@@ -80,6 +81,9 @@ impl Index for u16 {
     }
     fn next(self) -> Self {
         self + 1
+    }
+    fn checked_next(self) -> Option<Self> {
+        self.checked_add(1)
     }
     fn widen_to_u16(self) -> u16 {
         self
